@@ -11,7 +11,10 @@ RULE = ("every acyclic ADMG(n) n<=3 quick / n<=4 thorough under the label famili
         "(beyond the property's quantifier); the empty graph; every small graph also as pywhy_graphs.ADMG instance / three-layer "
         "MixedEdgeGraph with an edge-less third layer, and with user node attributes that look like the generated ones "
         "(label='Unobserved Confounders', observed='no'/'yes', on all or on seeded nodes incl. common parents of bidirected pairs); "
-        "query sets checked for mutation; multi-digit generated-looking caller names ('U9','U10',.. / 'U2','U10' / 'U98'..) and "
+        "query sets checked for mutation; HISTORY-BUILT inputs (attributes given by add_node(**kw) or by constructor layers whose "
+        "nodes carry data, then overwritten / deleted / extended through G.nodes[n], set_node_attributes, add_nodes_from; attribute "
+        "keys of type int and tuple and keys named node_for_adding / u_of_edge / edge_type / domain_ids on nodes, both edge layers "
+        "and the graph; result attributes must equal G.nodes exactly and be independent copies); multi-digit generated-looking caller names ('U9','U10',.. / 'U2','U10' / 'U98'..) and "
         "identity-hashed label objects (graphs.labeler family 'obj'); a preceding call on an unrelated graph (cross-call contamination); "
         "a DEEP stream of three 150-300 node chains run with the recursion limit lowered to depth+120 (structure compared with the "
         "model, d-separation of the result vs m_separated of the input compared with each other); distinct by (canonical graph, label family, repeat, names, object kind, look-alike "
@@ -68,6 +71,15 @@ def gen_cases(tier, rng):
             fams = [None, "U"] + (["Urev", "Ushift", "U9", "obj"] if g["B"] and n <= 3 else [])
             for fam in fams:
                 yield {"kind": "admg%d" % n, "g": g, "fam": fam, "qs": qs, "oracle": True, "aseed": rng.randrange(64)}
+    # HISTORY-BUILT inputs (flavour N): attributes given by add_node(**kw) / constructor layers and later overwritten, deleted or
+    # extended through G.nodes[n], nx.set_node_attributes, add_nodes_from; non-str keys on nodes, edges and graph
+    for n in range(1, 4):
+        for j, g in enumerate(gr.enum_admg(n)):
+            if n == 3 and j % 2:
+                continue
+            yield {"kind": "hist%d" % n, "g": g, "fam": ("U", None, "obj")[j % 3], "qs": queries(g["V"]), "oracle": True,
+                   "aseed": rng.randrange(64), "hist": rng.randrange(1 << 20), "okind": ("mixed2", "admg", "mixed3")[j % 3],
+                   **({"rep": rng.randrange(1 << 30)} if j % 5 == 0 and (g["D"] or g["B"]) else {})}
     # BOUNDARY: the empty graph
     yield {"kind": "admg0", "g": gr.G([]), "fam": None, "qs": [], "oracle": True, "aseed": 0}
     yield {"kind": "admg0", "g": gr.G([]), "fam": None, "qs": [], "oracle": True, "aseed": 0, "okind": "admg"}
@@ -119,6 +131,8 @@ def gen_cases(tier, rng):
             c.update(okind=("mixed2", "admg", "mixed3")[i % 3])
         if i % 5 == 0:
             c.update(pre=True)
+        if i % 3 == 1:
+            c.update(hist=rng.randrange(1 << 20))
         if i % 4 == 1:
             c.update(kind="rand-rep", rep=rng.randrange(1 << 30))
         elif i % 4 == 3:
@@ -195,6 +209,21 @@ def node_attrs(case, v, mode):
             d.update(observed="no")
         elif r == 2:
             d.update(label="Unobserved Confounders", observed="yes")
+    h = case.get("hist")
+    if h is not None:
+        # HISTORY-BUILT inputs: keys that are not str (int, tuple), keys named like the library's own parameters / attributes,
+        # mutable values; the FINAL state of G.nodes[n] is what the result must carry
+        r = (h >> (v % 10)) & 7
+        d["tag"] = "final%d" % v
+        if r & 1:
+            d[7] = [v, "int-key"]
+            d[("t", v)] = {"k": [v]}
+        if r & 2:
+            d.update(node_for_adding="x", u_of_edge=[v], edge_type="directed")
+        if r & 4:
+            d.update(domain_ids=[v], label=["list-label"])
+        if r == 0:
+            d[0] = []
     return d
 
 
@@ -213,13 +242,33 @@ def build(case):
                                     edge_types=[dn, bn, "undir" if case.get("names") else "undirected"])
     else:
         M = pywhy_nx.MixedEdgeGraph(graphs=[nx.DiGraph(), nx.Graph()], edge_types=[dn, bn])
+    hist = case.get("hist")
+    if hist is not None and hist % 2 and okind != "admg":
+        # constructor from networkx graphs whose nodes already carry data (data that G.nodes does NOT have)
+        Dg, Bg = nx.DiGraph(), nx.Graph()
+        for v in g["V"]:
+            Dg.add_node(lab(v), tag="layer-only", zz=[v], w="layer")
+            Bg.add_node(lab(v), tag="layer-only-b")
+        layers3 = [nx.Graph()] if okind == "mixed3" else []
+        M = pywhy_nx.MixedEdgeGraph(graphs=[Dg, Bg] + layers3,
+                                    edge_types=[dn, bn] + (["undir" if case.get("names") else "undirected"] if layers3 else []))
     # node attributes are attached in four different ways (mixed per case by case["aseed"]): only mode 0 is mirrored
     # into the per-layer graphs, so an implementation that reads attributes from a layer instead of G.nodes loses the rest
     aseed = case.get("aseed", 0)
     mode = {v: (aseed + 3 * v + (aseed >> 2) * (v + 1)) % 4 for v in g["V"]}
     attrs = {v: node_attrs(case, v, mode[v]) for v in g["V"]}
     for v in gr.ordered(case, g["V"], "V"):
-        if mode[v] == 0:
+        if mode[v] == 0 and hist is not None:
+            # first given by add_node(n, k=v) (stored in every layer AND in G.nodes), later changed / deleted / extended
+            # through G.nodes[n]: the layers keep the stale values
+            init = {k: x for k, x in attrs[v].items() if isinstance(k, str) and k != "node_for_adding"}
+            init.update(tag="stale", gone=[1, 2], w=["stale"])
+            M.add_node(lab(v), **init)
+            nd = M.nodes[lab(v)]
+            del nd["gone"]
+            for k, x in attrs[v].items():
+                nd[k] = x
+        elif mode[v] == 0:
             M.add_node(lab(v), **attrs[v])                      # keyword attributes of add_node
         elif mode[v] == 1:
             M.add_node(lab(v))
@@ -241,6 +290,18 @@ def build(case):
         nx.set_node_attributes(M, late)                         # networkx helper, after the fact
     M.graph["name"] = ["c10", {"seed": aseed}]
     M.graph["note"] = "graph-level"
+    if hist is not None:
+        # edge attributes on both layers (str and non-str keys, mutable values) and non-str graph attribute keys
+        for name in (dn, bn):
+            for i, (a, b, dd) in enumerate(M.get_graphs(name).edges(data=True)):
+                dd["weight"] = [i]
+                if (hist >> i) & 1:
+                    dd[7] = "int-key"
+                    dd[("t", i)] = [i]
+                    dd["edge_type"] = "x"
+        M.graph[7] = [1, 2]
+        M.graph[("g", 0)] = {"k": []}
+        M.graph["edge_type"] = "directed"
     return M, lab, inv
 
 
@@ -261,7 +322,8 @@ def observe(M, R, case, lab, inv):
     out["attrs"] = all(dict(R.nodes[x]) == dict(M.nodes[x]) and
                        {k: v for k, v in R.nodes[x].items() if k != "m"} ==
                        {k: v for k, v in node_attrs(case, inv(x), 0).items() if k != "m"} for x in orig if x in R)
-    out["gattrs"] = dict(R.graph) == dict(M.graph) and R.graph.get("note") == "graph-level" and "name" in R.graph
+    out["gattrs"] = dict(R.graph) == dict(M.graph) and R.graph.get("note") == "graph-level" and "name" in R.graph and \
+        (case.get("hist") is None or (R.graph.get(7) == [1, 2] and ("g", 0) in R.graph))
     lat = [x for x in R.nodes if x not in orig]
     out["D"] = sorted([inv(a), inv(b)] for a, b in R.edges if a in orig and b in orig)
     bad = []
@@ -368,6 +430,17 @@ def run_impl(case):
         out["second_call_same"] = again == first
         out["copy_same"] = copy_obs == first
         out["mutated"] = out["mutated"] or gr.snapshot(M) != before
+        R = convert(M)
+    if case.get("hist") is not None:
+        # independent copies: editing every mutable attribute value of the result must not show in the input
+        for dd in list(dict(R.nodes(data=True)).values()) + [R.graph]:
+            for k, x in list(dd.items()):
+                if isinstance(x, list):
+                    x.append("edited")
+                elif isinstance(x, dict):
+                    x["edited"] = True
+                dd[k] = x
+        out["independent"] = gr.snapshot(M) == before
     return out
 
 
@@ -395,6 +468,8 @@ def compare(case, impl, model):
         return "node-attributes"
     if not impl["gattrs"]:
         return "graph-attributes"
+    if impl.get("independent") is False:
+        return "attributes-not-independent-copies"
     if not impl["dag"]:
         return "not-a-dag"
     if impl["dsep_result"] != model["canon"]:
@@ -416,7 +491,7 @@ def nontrivial(case, model):
 
 def key(case):
     return (gr.canon(case["g"]), case.get("fam"), case.get("rep") is not None, tuple(case.get("names") or ()),
-            case.get("okind", "mixed2"), case.get("ulike") is not None)
+            case.get("okind", "mixed2"), case.get("ulike") is not None, case.get("hist") is not None)
 
 
 def shrink(case):
